@@ -73,5 +73,15 @@ Spec == Init /\ [][Next]_vars
 \* input after a result panics
 InvResult == (lastOut # <<>> /\ lastOut.kind = "result") => (lastOut.out = lastOut.spec \/ (lastOut.out = PANIC /\ lastOut.spec # NONE))
 InvInput == (lastOut # <<>> /\ lastOut.kind = "input") => lastOut.out = lastOut.spec
+\* ---- guided generation ("reuse matrix"): every history of the shape  input{0,2} result? reset input{0,2} result  on object 1, i.e. every
+\* pair of (what the object held when it was reset, what it is fed afterwards); used as a CONSTRAINT together with EmitReuse.  Buffers that are
+\* reused across a reset are where stale content hides; the plain generation tree reaches these histories only at depths whose trees are sampled.
+IsRes(o) == o \in {"result", "raw_result"}
+ResetAt == IF \E i \in 1..Len(hist) : hist[i].op = "reset" THEN CHOOSE i \in 1..Len(hist) : hist[i].op = "reset" /\ \A j \in 1..(i - 1) : hist[j].op # "reset" ELSE 0
+PartOK(p) == /\ \A i \in 1..Len(p) : p[i].op \in {"input", "result"} /\ p[i].x = 1
+             /\ Len(SelectSeq(p, LAMBDA e : e.op = "input")) <= 2
+             /\ \A i \in 1..Len(p) : IsRes(p[i].op) => i = Len(p)
+ReuseShape == LET k == ResetAt IN IF k = 0 THEN PartOK(hist) ELSE PartOK(SubSeq(hist, 1, k - 1)) /\ PartOK(SubSeq(hist, k + 1, Len(hist)))
+EmitReuse == LET k == ResetAt IN (Gen /\ k > 0 /\ k < Len(hist) /\ IsRes(hist[Len(hist)].op)) => PrintT(ToJson(<<"GEN", hist>>))
 Emit == (Gen /\ nops = MaxOps /\ \E i \in 1..Len(hist) : hist[i].op \in {"result", "raw_result"}) => PrintT(ToJson(<<"GEN", hist>>))
 =============================================================================
